@@ -375,23 +375,27 @@ def r6_4(ctx):
         ctx.ob("is_check_cords:king-class:distance", False, b.file, "no king-class decision found")
         return
     # leaves: the two coordinates of the enemy king and of the probed square
-    from .uci_rules import leaf_terms
+    ARITH_CALLS = ("::abs", "::abs_diff", "std::cmp::max", "std::cmp::min")
+
+    def arith_leaves(e):
+        k = e[0]
+        if k == "bin":
+            yield from arith_leaves(e[2])
+            yield from arith_leaves(e[3])
+        elif k in ("un", "cast"):
+            yield from arith_leaves(e[2])
+        elif k in ("deref", "ref"):
+            yield from arith_leaves(e[1])
+        elif k == "call" and any(e[1].endswith(sfx) for sfx in ARITH_CALLS):
+            for a in e[2]:
+                yield from arith_leaves(a)
+        elif k in ("const", "float"):
+            return
+        else:
+            yield e
     leaves = set()
     for loc, e in ds:
-        for x in leaf_terms(e):
-            while x[0] == "call" and (x[1].endswith("::abs") or x[1].endswith("::abs_diff")):
-                ys = []
-                for a in x[2]:
-                    ys += list(leaf_terms(a))
-                if len(ys) == 1:
-                    x = ys[0]
-                else:
-                    for y in ys:
-                        leaves.add(y)
-                    x = None
-                    break
-            if x is not None:
-                leaves.add(x)
+        leaves |= set(arith_leaves(e))
     ksq = [x for x in leaves if root_local(x) != sq]
     psq = [x for x in leaves if root_local(x) == sq]
     def coord(x):
